@@ -201,7 +201,7 @@ Theorem sync_round_decides_on_model (pol : list Sync.polka) (fresh : Sync.value)
   (forall m, In m ms -> exists a pw, nth_error vals (m_idx m) = Some (a, pw) /\ a <> 0%N /\ 0 <= pw) ->
   (forall m, In m ms -> ready_core (m_env m) h r p b hb ph (map m_idx ms) vals (m_state m) /\ lock_wf (m_state m)) ->
   (* Sync.v's picture of the configuration *)
-  SyncWeak.Inv' pol nodes ->
+  SyncWeak.InvL pol nodes ->
   (forall n, In n nodes -> Sync.unlock pol n = n) ->                 (* the unlock rule has been applied *)
   In mp ms ->
   hb = Sync.proposal_of fresh (Sync.unlock pol (abs (power_of vals (m_idx mp)) (m_state mp))) ->
@@ -215,8 +215,7 @@ Proof.
   intros Hbid Hhash Hvalid Hone Hnd Hval Hentry Hrdy HInv Hset Hmp Hprop Htot Hf H3 Hprem m Hm.
   assert (Hpn : In (abs (power_of vals (m_idx mp)) (m_state mp)) nodes).
   { unfold nodes. apply in_map_iff. exists mp. auto. }
-  pose proof (SyncWeak.good_round_decides' pol nodes _ fresh (total_power vals) faulty_power HInv Hpn Htot Hf H3) as G.
-  cbv zeta in G. rewrite <- Hprop in G. destruct (G Hprem) as [Un _].
+  pose proof (SyncWeak.good_round_prevotes pol nodes hb HInv Hprem) as Un.
   assert (Hlock : forall m0, In m0 ms -> lock_ok r b ph (m_state m0)).
   { intros m0 Hm0.
     assert (Hn : In (abs (power_of vals (m_idx m0)) (m_state m0)) (map (Sync.unlock pol) nodes)).
